@@ -66,6 +66,17 @@ func (cfg Config) Validate() Config {
 		log.Warn("UDP private key was not provided, using generated key", log.Fields{"key": validcfg.PrivateKey})
 	}
 
+	// A negative skew would refuse every connection ID for the first moments
+	// (or all) of its life, including the ones this tracker has just issued.
+	if cfg.MaxClockSkew < 0 {
+		validcfg.MaxClockSkew = 0
+		log.Warn("falling back to default configuration", log.Fields{
+			"name":     "udp.MaxClockSkew",
+			"provided": cfg.MaxClockSkew,
+			"default":  validcfg.MaxClockSkew,
+		})
+	}
+
 	if cfg.MaxNumWant <= 0 {
 		validcfg.MaxNumWant = defaultMaxNumWant
 		log.Warn("falling back to default configuration", log.Fields{
